@@ -43,6 +43,7 @@ def build(repo):
         Rule("R9", "format ! ( \"{}#__module__\" , path . with_extension ( \"mmm\" ) . bytecode_str ( ) )", "module_loader_of ( path )", count=2, why="cache key construction abstract (same expression in both forms)"),
         Rule("R2", "names . iter ( ) . map ( Ident :: name ) . map ( String :: from ) . collect ( )", "ident_names ( names )", why="iter().map().collect(): the names in order"),
         Rule("R1", "id : SPLIT_LOOKUP_STORE ,", f"id : {ids['split_lookup_store']}u8 ,", why="opcode constant from instruction_constants.rs"),
+        Rule("R12", "vec ! [ ]", "Vec :: new ( )", why="vec![]"),
         Rule("R12", "vec ! [ $$a , $$b , $$c , ]", "vec3 ( $$a , $$b , $$c )", why="vec![a, b, c]"),
         Rule("R12", "vec ! [ $$a , $$b , ]", "vec2 ( $$a , $$b )", why="vec![a, b]"),
         Rule("R1", "Self :: Standard", "Import :: Standard"), Rule("R1", "Self :: Names", "Import :: Names"),
